@@ -24,11 +24,15 @@
 (* os.Exit, racing the aggregator's drain/flush/close);  TRUE is the fix   *)
 (* (main waits for Engine.Wait(), bounded by the interrupt timeout).       *)
 (* A second signal and the timeouts are *forced* exits: by design they do  *)
-(* not wait, the invariant exempts them.                                   *)
+(* not wait, the invariant exempts them.  In the ERROR path (the engine    *)
+(* failed on its own, main awaits the started tasks) signals are not read  *)
+(* at all: a first signal there must not end the process either.           *)
 (***************************************************************************)
 EXTENDS Phout
 
-CONSTANTS R, M, Q, Mode, WaitOnSignal, MaxSignals, MayFail
+CONSTANTS R, M, Q, Mode, WaitOnSignal, MaxSignals, MayFail,
+          ErrWaitSignalExits   \* TRUE: a signal that arrives while main awaits the tasks of a FAILED run exits at once
+                               \* (seeded regression C06-6: the shared helper treats it as "another signal")
 
 VARIABLES mpc,      \* main: "await" | "sigwait" | "sigjoin" | "errwait" | "exited"
           sigs,     \* signals delivered so far
@@ -98,6 +102,16 @@ Forced == /\ ~exited /\ mpc \in {"sigwait", "sigjoin", "errwait"}
           /\ mpc' = "exited" /\ exited' = TRUE /\ forced' = TRUE
           /\ UNCHANGED <<root, engV, poolV, wpc, failed, rdone, stopCount, instV, aggV, lateLost>>
 
+\* error path of awaitPandoraTermination: the engine failed on its own, main has cancelled and is in
+\* pandora.Wait() under a 3 s timer.  A FIRST signal that arrives now only lands in the `sigs` channel: nobody
+\* reads it, the flush of the other tasks completes.  (Signal first, engine error afterwards is Signal1 ->
+\* RecvErr -> "sigjoin"; a second signal there is Forced.)
+SignalWhileAwaitingTasks ==
+    /\ ~exited /\ mpc = "errwait" /\ sigs < MaxSignals
+    /\ sigs' = sigs + 1
+    /\ IF ErrWaitSignalExits THEN mpc' = "exited" /\ exited' = TRUE ELSE UNCHANGED <<mpc, exited>>
+    /\ UNCHANGED <<root, forced, engV, poolV, wpc, failed, rdone, stopCount, instV, aggV, lateLost>>
+
 (* ------------------------------------------------------------------ Engine.Run, pool.Run *)
 EngineReturn ==
     /\ ~exited /\ epc = "run"
@@ -165,7 +179,7 @@ AggStep == Dequeue \/ Flush \/ SeeDone \/ DrainEnd \/ FinalFlush \/ Close \/ Ret
 
 \* Exit freezes everything: every action is guarded by ~exited (kept inside the actions so that TLC's
 \* coverage reports them separately)
-Next == \/ Signal1 \/ RecvErr \/ Joined \/ Forced
+Next == \/ Signal1 \/ RecvErr \/ Joined \/ Forced \/ SignalWhileAwaitingTasks
         \/ EngineReturn \/ PoolReturn
         \/ FailDelivered \/ FailSuppressed \/ AllFinished \/ AwaitDone
         \/ \E i \in I : Report(i)
